@@ -434,14 +434,23 @@ class SelectWith(Statement):
             else:
                 arg = Value(arg.result.bitvector)
 
+        choices = [branch[0].write(scope, self._arg.result) for branch in self._branches]
+
+        for nr, choice in enumerate(choices):
+            assert (
+                choice not in choices[:nr]
+            ), f"duplicate choice {choice} in selected assignment"
+
         return TextBlock(
             [
                 f"with {arg.write(scope, constrain=True)} select {self._target.write(scope)} <=",
                 IndentBlock(
                     [
                         *[
-                            f"{branch[1].write(scope, self._target.result)} when {branch[0].write(scope, self._arg.result)}{sep}"
-                            for branch, sep in zip(self._branches, separators)
+                            f"{branch[1].write(scope, self._target.result)} when {choice}{sep}"
+                            for branch, choice, sep in zip(
+                                self._branches, choices, separators
+                            )
                         ],
                         *[
                             f"{default.write(scope, self._target.result)} when others;"
@@ -485,17 +494,26 @@ class CaseWhen(Statement):
                 return TextBlock("null;")
             return block.write(scope)
 
+        choices = [
+            value.write(scope, target_hint=cond.result) for value, _ in self._branches
+        ]
+
+        for nr, choice in enumerate(choices):
+            assert (
+                choice not in choices[:nr]
+            ), f"duplicate choice {choice} in case statement"
+
         return TextBlock(
             [
                 f"case {cond.write(scope, constrain=True)} is",
                 *[
                     IndentBlock(
                         [
-                            f"when {value.write(scope, target_hint=cond.result)} =>",
+                            f"when {choice} =>",
                             IndentBlock(write_block(block)),
                         ]
                     )
-                    for value, block in self._branches
+                    for choice, (_, block) in zip(choices, self._branches)
                 ],
                 (
                     IndentBlock(["when others =>", IndentBlock("null;")])
